@@ -12,6 +12,7 @@ from fractions import Fraction
 
 import numpy as np
 import torch
+import torch.nn as nn
 import z3
 
 import symtorch as st
@@ -39,6 +40,11 @@ def instances(tier, seed):
     for sh in shapes:
         for b in wbits:
             out.append({'id': f'weight:{sh[0]}x{sh[1]}:b{b}', 'what': 'weight', 'shape': list(sh), 'bits': b})
+    # the quantizer is a function of the CURRENT value of the tensor it is given: the weight is an nn.Parameter that was quantized once and then
+    # updated (through .data, as checkpoint loaders and some optimizers do / in place under no_grad / by rebinding .data) before the observed call
+    for hist in ('data_copy', 'nograd_copy'):
+        for b in ([2, 8] if tier == 'quick' else [2, 3, 4, 8]):
+            out.append({'id': f'weight:1x2:b{b}:after_{hist}', 'what': 'weight', 'shape': [1, 2], 'bits': b, 'hist': hist})
     for b in ([2, 3, 8] if tier == 'quick' else [2, 3, 4, 5, 6, 7, 8]):
         out.append({'id': f'pact:b{b}', 'what': 'pact', 'bits': b})
     for b, b0 in ([(2, 8), (8, 4)] if tier == 'quick' else [(2, 8), (3, 8), (4, 2), (8, 4)]):
@@ -57,10 +63,19 @@ def _f(v):
     return float(Fraction(v)) if not isinstance(v, float) else v
 
 
-def concrete_weight(shape, bits, w):
+def concrete_weight(shape, bits, w, hist=None, w0=None):
     from plinio.methods.mps.quant.quantizers import MinMaxWeight
     q = MinMaxWeight(bits, cout=shape[0])
     W = torch.tensor([_f(v) for v in w], dtype=torch.float32).reshape(shape)
+    if hist:
+        P = nn.Parameter(torch.tensor([_f(v) for v in w0], dtype=torch.float32).reshape(shape))
+        q(P)
+        if hist == 'data_copy':
+            P.data.copy_(W)
+        else:
+            with torch.no_grad():
+                P.copy_(W)
+        W = P
     q.dequantize = False
     qi = q(W)
     q.dequantize = True
@@ -98,7 +113,8 @@ def replay(rec):
     obs = rec['observable']
     tol = 1e-4
     if rec['qkind'] == 'weight':
-        W, qi, fq, scale = concrete_weight(rec['shape'], rec['bits'], rec['w'])
+        W, qi, fq, scale = concrete_weight(rec['shape'], rec['bits'], rec['w'], rec.get('hist'), rec.get('w0'))
+        W, qi, fq, scale = W.detach(), qi.detach(), fq.detach(), scale.detach()
         b = rec['bits']
         flat = lambda t: [float(v) for v in t.reshape(-1)]
         info = f'w={flat(W)} int={flat(qi)} fq={flat(fq)} scale={flat(scale)}'
@@ -215,6 +231,7 @@ def _run_weight(res, p, selftest):
     from plinio.methods.mps.quant.quantizers import MinMaxWeight
     C, n = p['shape']
     b = p['bits']
+    hist = p.get('hist')
 
     def fn(ex):
         with SymMode():
@@ -222,15 +239,35 @@ def _run_weight(res, p, selftest):
             w = SymTensor.fresh('w', (C, n))
             for v in w.elems():
                 ex.assume(v >= -8192, v <= 8192)
+            w0 = None
+            arg = w
+            if hist:
+                w0t = SymTensor.fresh('w0', (C, n))
+                for v in w0t.elems():
+                    ex.assume(v >= -8192, v <= 8192)
+                w0 = list(w0t.elems())        # the Parameter aliases this storage, which is overwritten below
+                arg = nn.Parameter(w0t)
+                q(arg)
+                g0 = len(ex.guards)
+                if hist == 'data_copy':
+                    arg.data.copy_(w)
+                else:
+                    with torch.no_grad():
+                        arg.copy_(w)
             q.dequantize = False
-            qi = q(w)
+            qi = q(arg)
             q.dequantize = True
-            fq = q(w)
+            fq = q(arg)
             scale = q.scale
             guards = list(ex.guards)
-        return w, st.to_arr(qi), st.to_arr(fq), st.to_arr(scale), guards
+            if hist:
+                # a degenerate first call (all-zero tensor: zero range) is not the subject here
+                for g in guards[:g0]:
+                    ex.assume(z3.Not(g))
+                guards = guards[g0:]
+        return w, st.to_arr(qi), st.to_arr(fq), st.to_arr(scale), guards, w0
     ex = Explorer(timeout_ms=Q)
-    for pc, (w, qi, fq, scale, guards) in ex.explore(fn):
+    for pc, (w, qi, fq, scale, guards, w0) in ex.explore(fn):
         W = st.to_arr(w)
         wv = w.elems()
         checks = []
@@ -272,18 +309,21 @@ def _run_weight(res, p, selftest):
                 continue
             res.oblige(r == 'unsat')
             if r == 'sat':
-                m2 = _grid_model(ex, wv, [bad] + ([] if name == 'nonfinite' else nog)) or m
+                m2 = _grid_model(ex, wv + (w0 if hist else []), [bad] + ([] if name == 'nonfinite' else nog)) or m
                 rec = {'qkind': 'weight', 'shape': [C, n], 'bits': b, 'w': [st.model_value(m2, v) for v in wv], 'observable': name,
-                       'key': f'MinMaxWeight|{name}|b={b}'}
+                       'key': f'MinMaxWeight|{name}|b={b}' + (f'|after_{hist}' if hist else '')}
+                if hist:
+                    rec['hist'] = hist
+                    rec['w0'] = [st.model_value(m2, v) for v in w0]
                 _viol(res, rec, f'MinMaxWeight {C}x{n} bits={b}: {name}', selftest)
         # witness + concolic validation
         r, m = ex.must(*(st.e_ne(v, 0) for v in wv[:1]))
         res.witnesses += 1
         res.witnesses_ok += 1 if r == 'sat' else 0
-        m2 = _grid_model(ex, wv, nog) if r == 'sat' else None
+        m2 = _grid_model(ex, wv + (w0 if hist else []), nog) if r == 'sat' else None
         if m2 is not None:
             vals = [st.model_value(m2, v) for v in wv]
-            Wc, qic, fqc, sc = concrete_weight([C, n], b, vals)
+            Wc, qic, fqc, sc = concrete_weight([C, n], b, vals, hist, [st.model_value(m2, v) for v in w0] if hist else None)
             got = [float(st.model_value(m2, v)) for v in qi.reshape(-1)]
             res.sample({'quantizer': 'MinMaxWeight', 'bits': b, 'w': vals, 'int': got})
             if got == [float(v) for v in qic.reshape(-1)]:
